@@ -226,7 +226,8 @@ func (XORObfuscator) TryReveal(cipherText []byte, privateKey [32]byte) ([]byte, 
 func (XORObfuscator) Obfuscate(plainText []byte, stationPubkey []byte) ([]byte, error) {
 	lp := len(plainText)
 	if lp == 0 {
-		return []byte{}, nil
+		// TryReveal rejects an empty message, so there is no encoding of an empty plaintext.
+		return nil, errors.New("empty plaintext cannot be obfuscated")
 	}
 	out := make([]byte, lp*2)
 
